@@ -30,3 +30,8 @@ chk("C01",
     "Concurrent histories (4-16 clients x 150-400 ops over 3-12 keys, unique values, TTLs of 1us-5ms, Range visits, loader-backed Gets split into leader=write / follower=read) are recorded at the client boundary with a logical clock and checked per key with porcupine against a sequential map model in which a miss is always legal but a value seen gone may never return. Configurations plain / doorkeeper / entry pool / loading / loading+doorkeeper / loading+pool x MaxSize 1..1000, GOMAXPROCS 2..16, delays at hook H1; plus a scripted scenario that parks a load leader between storing and unregistering (hook H5). Illegal histories are shrunk to a reads-from-closed core. Thorough adds a -race pass.",
     "Sound only for what was observed: ~200 (quick) / ~6000 (thorough) histories. A porcupine timeout is inconclusive. Costs are all 1.",
     "linearizability checking (porcupine) of recorded client-boundary histories")
+
+chk("C03",
+    "Deadline oracle in the cache's own virtual time: every TTL write (Set or loader) records (unique value, ttl, time at return); any Get / loading Get / Range visit that yields the value and was invoked at or after that latest-possible deadline is a violation. Cases sweep reads across the deadline (dense, or precisely placed while stalled) and at +1 tick / +35 s / +1 h, for TTLs 1 ns..7 d incl. the 30 s cached-clock window, re-timing in both directions, with maintenance stalled by a held policy lock, a blocked removal listener or a SaveCache into a blocking writer for 0.5 s..2 h of virtual time; plus concurrent real-time sweeps.",
+    "Virtual time = shifted clock origin (no client call in flight during a shift). The interval between the true deadline and time-at-return + ttl (nanoseconds to microseconds) is not judged. One open finding (stall >= 30 s) is listed in known_findings.json.",
+    "deadline-oracle monitor over recorded reads/writes under virtual time + stall injection")
